@@ -68,6 +68,12 @@ def scenarios(tier):
     w.add_file("t/x", _c(13, 90)); w.add_file("t/y", _c(13, 90)); w.add_file("t/bad/p", _c(14, 50)); w.add_file("t/bad/q", _c(14, 50))
     w.add_file("t/ok/r", _c(15, 70)); w.add_file("t/ok/s", _c(15, 70)); w.add_file("t/ok/deep/u", _c(13, 90))
     sc.append({"name": "one-fs", "world": w.to_json(), "roots": ["t"], "gargs": ["--one-fs"], "kind": "ssd", "knobs": KNOBS})
+    # -S: symbolic links to files are reported as entries of their own (content = the target's); a link whose
+    # target cannot be examined is one failing entry like any other
+    w = World()
+    w.add_file("r/a", _c(16, 150)); w.add_file("r/k/b", _c(16, 150)); w.add_file("store/t", _c(16, 150)); w.add_file("store/u", _c(17, 60))
+    w.add_file("r/v", _c(17, 60)); w.add_symlink("r/l", "../store/t"); w.add_symlink("r/k/l2", "../../store/u"); w.add_symlink("r/k/l3", "../a")
+    sc.append({"name": "report-links", "world": w.to_json(), "roots": ["r"], "gargs": ["-S"], "kind": "ssd", "knobs": KNOBS})
     if tier == "thorough":
         w = World()
         for i in range(3):
@@ -196,7 +202,7 @@ def run_case(case):
         World.from_json(sc["world"]).materialise(rd.world)
         roots = [os.path.join(rd.wb(), s2b(r)) for r in sc["roots"]]
         follow = "-L" in sc["gargs"]
-        sel = model.scan(roots, follow=follow)
+        sel = model.scan(roots, follow=follow, report_links="-S" in sc["gargs"])
         keys = model.content_keys(sel)
         # what the faulted entries make unreachable (their subtree; with -L everything reached only through them)
         # auxiliary steps (e.g. "deliver this entry with DT_UNKNOWN") make a call position exist; they fault nothing
@@ -206,8 +212,10 @@ def run_case(case):
             ent = ops.absw(rd, f["path"])
             blocked.add(ent)
             blocked.add(os.path.realpath(ent))
-        affected = set(sel) - set(model.scan(roots, follow=follow, blocked=blocked))
+        affected = set(sel) - set(model.scan(roots, follow=follow, report_links="-S" in sc["gargs"], blocked=blocked))
         affected |= {p for p in sel if p in blocked}
+        # a reported link (-S) stands for its target: a faulted target costs the links that lead to it
+        affected |= {p for p in sel if os.path.islink(p) and any(_under(b_, os.path.realpath(p)) for b_ in blocked)}
         # an entry that really vanishes takes its whole subtree with it, whichever input path leads there
         for f in eff:
             if f["act"] == "vanish":
